@@ -199,7 +199,8 @@ func (c *child) runStress() {
 
 	// hook events: record, delay, and (close-at mode) trigger Close
 	closeNow := make(chan struct{})
-	var closeOnce sync.Once
+	closeBegun := make(chan struct{})
+	var closeOnce, beganOnce sync.Once
 	var rec *strace.Recorder
 	var idx bleve.Index
 	var err error
@@ -233,9 +234,18 @@ func (c *child) runStress() {
 				hit = seen == in.Occ
 			}
 			dmu.Unlock()
+			if name == "close_begin" {
+				beganOnce.Do(func() { close(closeBegun) })
+			}
 			if hit {
+				// hold this goroutine until Scorch.Close is under way (closeCh about to be closed), then a
+				// little longer so that the other loops take their closeCh arms first
 				c.out.ClosedAtHook = true
 				closeOnce.Do(func() { close(closeNow) })
+				select {
+				case <-closeBegun:
+				case <-time.After(3 * time.Second):
+				}
 				time.Sleep(time.Duration(in.HoldMS) * time.Millisecond)
 				return
 			}
